@@ -274,6 +274,22 @@ type Sample struct {
 	Choices  []int  `json:"choices"`
 	Kinds    string `json:"kinds"`
 	Outcome  string `json:"outcome"`
+	// executions of the long histories have hundreds of thousands of choice points: the evidence keeps
+	// their number and the first 64 (the others are the default choice 0 unless a replay file says otherwise)
+	ChoicePoints int `json:"choice_points,omitempty"`
+}
+
+func newSample(scenario string, choices []int, kinds, outcome string) Sample {
+	s := Sample{Scenario: scenario, Choices: choices, Kinds: kinds, Outcome: outcome}
+	if len(choices) > 256 {
+		s.ChoicePoints = len(choices)
+		s.Choices = append([]int(nil), choices[:64]...)
+		s.Kinds = kinds[:64] + "..."
+	}
+	if len(s.Outcome) > 2000 {
+		s.Outcome = s.Outcome[:2000] + "..."
+	}
+	return s
 }
 
 func kindsString(pts []vs.Point) string {
@@ -320,7 +336,7 @@ func (e *explorer) record(rep *ExecReport, plen int) {
 		r.EngineErr = fmt.Sprintf("%s (scenario %s choices %v)", rep.EngineEr, e.sc.Name, rep.Choices)
 	}
 	if len(r.Samples) < 2 {
-		r.Samples = append(r.Samples, Sample{Scenario: e.sc.Name, Choices: rep.Choices, Kinds: kindsString(rep.Points), Outcome: rep.Outcome})
+		r.Samples = append(r.Samples, newSample(e.sc.Name, rep.Choices, kindsString(rep.Points), rep.Outcome))
 	}
 	for _, v := range rep.Viol {
 		r.ViolCount[v.Key]++
